@@ -371,7 +371,13 @@ func (state *inflate) readLitDistLens(ctx *dynamicHeaderReader, hdist, hlit int)
 
 			i := int(3 + ret)
 
-			if curr+i > end || prev == -1 {
+			// entries left for the repeat: while still in the literal/length
+			// section, the unused gap up to litLen does not count
+			room := end - curr
+			if &count[0] != &ctx.distCount[0] {
+				room = int(litTableSize+hlit) - curr + hdist + 1
+			}
+			if i > room || prev == -1 {
 				err = errInvalidBlock
 				goto END
 			}
